@@ -160,6 +160,10 @@ static sqf::runtime::runtime::result execute_do(sqf::runtime::runtime& runtime, 
             // Readd return value of frame if it had one
             if (val.has_value())
             { context_active.push_value(val.value()); }
+            else if (!context_active.empty())
+            { // A finished block always contributes exactly one value to its caller: nil if its last statement left none
+                context_active.push_value({});
+            }
 
 #ifdef SQFVM_RUNTIME_VERIF
             if (sqf::runtime::verif::get_hooks().on_frame_popped) { sqf::runtime::verif::get_hooks().on_frame_popped(runtime, val.has_value()); }
